@@ -143,6 +143,10 @@ pub fn case_state(va: &dyn VariantApi, gs: &GenState, st: &CaseStats) -> Result<
             }
         }
     }
+    // finalize() is finalize_with_options(default) on every state, not only on small inputs
+    let m0 = mg.finalize(Opts::from_index(Opts::DEFAULT_INDEX));
+    compare_result(&format!("{} finalize() on injected state (n={})", v.name, total), &g.finalize_default(), &m0)?;
+    st.eval();
     let mx = gs.buckets[..v.buckets].iter().copied().max().unwrap_or(0);
     if mx >= 1 << 31 {
         st.class("max count >= 2^31");
